@@ -296,6 +296,10 @@ func c06FollowUps(r *Run, t *tape.Tape, decName string, dst any, input []byte, v
 		sign1(decName, v)
 	case *cose.UntaggedSign1Message:
 		sign1(decName, (*cose.Sign1Message)(v))
+		// the untagged type itself handed over as a countersignature parent
+		// (not one of the documented parent types: an error is expected)
+		countersign(decName+"(as UntaggedSign1Message)", v)
+		countersign(decName+"(as UntaggedSign1Message value)", *v)
 	case *cose.SignMessage:
 		r.c06Call("SignMessage.MarshalCBOR", input, func() { v.MarshalCBOR() })
 		vs := make([]cose.Verifier, len(v.Signatures))
